@@ -18,12 +18,14 @@ EXTENDS BigNat, Rounding, TLC
 CONSTANTS PMAX, BMAX, NBITS
 
 VARIABLES part, x
-Init == part = "start" /\ x = 0
+\* sixteen initial states (x = residue class): TLC generates the successors of ONE state on one thread, and the
+\* heavy evaluations sit in the successors' invariants, so the arguments are spread over the classes
+Init == part = "start" /\ x \in 0..15
 Next == /\ part = "start"
-        /\ \/ (part' = "ten" /\ x' \in 0..PMAX)
-           \/ (part' = "digits" /\ x' \in 1..BMAX)
-           \/ (part' = "term" /\ x' \in 1..(2 ^ NBITS - 1))
-           \/ (part' = "lazy" /\ x' \in 0..(7 * 2 * 10 * 10 * 2 - 1))
+        /\ \/ (part' = "ten" /\ x' \in {y \in 0..PMAX : y % 16 = x})
+           \/ (part' = "digits" /\ x' \in {y \in 1..BMAX : y % 16 = x})
+           \/ (part' = "term" /\ x' \in {y \in 1..(2 ^ NBITS - 1) : y % 16 = x})
+           \/ (part' = "lazy" /\ x' \in {y \in 0..(7 * 2 * 10 * 10 * 2 - 1) : y % 16 = x})
 
 \* ---- TenToThe
 P10u64(k) == Pow10(k)                                  \* 10u64.pow(k), k < 20
